@@ -133,6 +133,18 @@ claim("C01", "exploration",
       "not enumerated: 'held on K executions covering these select arms'. Three mechanism-keyed known findings (thin regions at subnormal components).",
       "DESIGN.md section 3 C01")
 
+claim("C04", "exploration",
+      "runtime contracts on every rule method of the real Rewriter + whole-program differential evaluation under exact-rational and float interpreters",
+      "Typed random expression DAGs (plus pattern-directed templates for rarely matching rules) are rewritten alone and after each target's expansion pass "
+      "(python, numpy, stablehlo, xla_client, cpp, own-expansion) with deep_first True/False, and all shipped algorithms are rewritten for every target, "
+      "with a recording contract on each rule method: every single rule application (before, after) and every whole program is evaluated on 64 hostile "
+      "float assignments (identical booleans / floats up to the sign of zero wherever no node of the original is NaN, overflows, underflows or divides by "
+      "zero) and on exact rational assignments (equal where the original is defined); raising and non-termination (step cap, watchdog = inconclusive) are judged too.",
+      "Trusted: vf.exprinterp semantics. Constant folding in the node's dtype is read as float evaluation (not a change of meaning); whole programs in which "
+      "folding took part are judged by the float clause only. Known finding KF-C04-updown-cancel is factored out of whole-program comparisons by reading "
+      "upcast(downcast(x)) as x on both sides when that rule fired.",
+      "DESIGN.md section 3 C04")
+
 SOURCE_COMMITS = []
 
 
